@@ -407,6 +407,14 @@ class Interp:
                 return ("bound", base[3], m.qualname)
             return ("attr", base, name)
         cls = self.type_of(base)
+        if cls is not None and cls.is_namedtuple and base[0] == "tuple":
+            names = cls.nt_fields()
+            if name in names and names.index(name) < len(base[1]):
+                return base[1][names.index(name)]
+            if name == "_replace":
+                return ("ntreplace", base, cls.qualname)
+            if name == "_fields":
+                return ("tuple", tuple(const(x) for x in names))
         if cls is not None and any(pred(name) for q_, pred in self.opaque_attrs.items() if any(c.qualname == q_ for c in cls.mro())):
             m0 = cls.find_method(name)
             if m0 is None or m0.is_property:
@@ -422,6 +430,8 @@ class Interp:
                     return ("bound", ("class", cls.qualname), m.qualname)
                 return ("bound", base, m.qualname)
             ca = cls.find_class_attr(name)
+            if ca is not None and any(c.is_dataclass and name in c.annotations and "ClassVar" not in ast.unparse(c.annotations[name]) for c in cls.mro()):
+                ca = None           # a dataclass field: every instance has its own value (the class-level expression is its default)
             if ca is not None and name not in self._instance_written(cls):
                 v = self._eval_class_attr(ca[0], name, ca[1])
                 if v is not None and v[0] == "propobj":
@@ -462,7 +472,7 @@ class Interp:
         """Every alternative of a decision term is a heap object or a constant (so attribute access can be decided per leaf)."""
         if t[0] == "cond":
             return self._concrete_leaves(t[2]) and self._concrete_leaves(t[3])
-        return t[0] in ("ref", "const")
+        return t[0] in ("ref", "const") or (t[0] == "tuple" and t in self.types)
 
     def _eval_class_attr(self, cls: ClassInfo, name: str, node: ast.expr):
         """Value of a class-level attribute when it is a plain table (constants, tuples/lists/dicts of constants and of
@@ -562,50 +572,160 @@ class Interp:
             return ("regex", const(node.args[0].value), ("extname", ast.unparse(fl)) if fl is not None else NONE)
         return None
 
-    def _const_global(self, mod, node, depth=0):
-        """Python value of a module-level constant expression (numbers, strings, tuples/lists, range, chain, arithmetic,
-        other constant globals); raises ValueError otherwise."""
-        if depth > 8:
+    def _const_global(self, mod, node, depth=0, env=None):
+        """Python value of a module-level constant expression (numbers, strings, tuples/lists/dicts, range, chain, arithmetic,
+        str/len, comprehensions over such values, starred parts, other constant globals); raises ValueError otherwise."""
+        if depth > 12:
             raise ValueError
-        ev = lambda n: self._const_global(mod, n, depth + 1)
+        env = env or {}
+        ev = lambda n, e=None: self._const_global(mod, n, depth + 1, env if e is None else e)
         if isinstance(node, ast.Constant):
             return node.value
         if isinstance(node, (ast.Tuple, ast.List)):
-            return tuple(ev(e) for e in node.elts)
+            out = []
+            for e in node.elts:
+                if isinstance(e, ast.Starred):
+                    v = ev(e.value)
+                    if not isinstance(v, tuple):
+                        raise ValueError
+                    out.extend(v)
+                else:
+                    out.append(ev(e))
+            return tuple(out)
+        if isinstance(node, ast.Dict):
+            if any(k is None for k in node.keys):
+                raise ValueError
+            return {ev(k): ev(v) for k, v in zip(node.keys, node.values)}
         if isinstance(node, ast.Name):
+            if node.id in env:
+                return env[node.id]
             g = mod.globals.get(node.id)
             if g is None:
                 raise ValueError
-            return ev(g)
+            return self._const_global(mod, g, depth + 1, {})
+        if isinstance(node, ast.JoinedStr):
+            parts = []
+            for v in node.values:
+                if isinstance(v, ast.Constant):
+                    parts.append(str(v.value))
+                elif isinstance(v, ast.FormattedValue) and v.format_spec is None and v.conversion == -1:
+                    x = ev(v.value)
+                    if not isinstance(x, (str, int)) or isinstance(x, bool):
+                        raise ValueError
+                    parts.append(str(x))
+                else:
+                    raise ValueError
+            return "".join(parts)
+        if isinstance(node, (ast.ListComp, ast.GeneratorExp, ast.SetComp, ast.DictComp)) and len(node.generators) == 1:
+            g = node.generators[0]
+            src = ev(g.iter)
+            if isinstance(src, dict):
+                src = tuple(src)
+            if not isinstance(src, tuple) or len(src) > 4096 or g.is_async:
+                raise ValueError
+            out = []
+            for x in src:
+                e2 = dict(env)
+                if isinstance(g.target, ast.Name):
+                    e2[g.target.id] = x
+                elif isinstance(g.target, ast.Tuple) and all(isinstance(t, ast.Name) for t in g.target.elts) and isinstance(x, tuple) \
+                        and len(x) == len(g.target.elts):
+                    for t, xv in zip(g.target.elts, x):
+                        e2[t.id] = xv
+                else:
+                    raise ValueError
+                if not all(ev(c, e2) for c in g.ifs):
+                    continue
+                out.append((ev(node.key, e2), ev(node.value, e2)) if isinstance(node, ast.DictComp) else ev(node.elt, e2))
+            return dict(out) if isinstance(node, ast.DictComp) else tuple(out)
+        if isinstance(node, ast.Compare) and len(node.ops) == 1:
+            a, b = ev(node.left), ev(node.comparators[0])
+            op = node.ops[0]
+            try:
+                if isinstance(op, ast.Eq):
+                    return a == b
+                if isinstance(op, ast.NotEq):
+                    return a != b
+                if isinstance(op, ast.Lt):
+                    return a < b
+                if isinstance(op, ast.LtE):
+                    return a <= b
+                if isinstance(op, ast.Gt):
+                    return a > b
+                if isinstance(op, ast.GtE):
+                    return a >= b
+                if isinstance(op, ast.In):
+                    return a in b
+                if isinstance(op, ast.NotIn):
+                    return a not in b
+            except TypeError:
+                raise ValueError
+            raise ValueError
         if isinstance(node, ast.BinOp) and isinstance(node.op, (ast.Add, ast.Sub, ast.Mult)):
             a, b = ev(node.left), ev(node.right)
             if isinstance(a, (int, str, tuple)) and type(a) is type(b) or (isinstance(a, int) and isinstance(b, int)):
                 return a + b if isinstance(node.op, ast.Add) else (a - b if isinstance(node.op, ast.Sub) else a * b)
+            raise ValueError
+        if isinstance(node, ast.BinOp) and isinstance(node.op, ast.BitOr):
+            a, b = ev(node.left), ev(node.right)
+            if isinstance(a, dict) and isinstance(b, dict):
+                return {**a, **b}
             raise ValueError
         if isinstance(node, ast.UnaryOp) and isinstance(node.op, ast.USub):
             v = ev(node.operand)
             if isinstance(v, int):
                 return -v
             raise ValueError
+        if isinstance(node, ast.Subscript) and not isinstance(node.slice, ast.Slice):
+            a, k = ev(node.value), ev(node.slice)
+            try:
+                return a[k]
+            except (KeyError, IndexError, TypeError):
+                raise ValueError
         if isinstance(node, ast.Call) and not node.keywords:
             fn = node.func.id if isinstance(node.func, ast.Name) else (node.func.attr if isinstance(node.func, ast.Attribute) else None)
+            if isinstance(node.func, ast.Name) and (fn in env or fn in mod.globals):
+                raise ValueError            # a user function of that name
             args = [ev(a) for a in node.args]
             if fn == "range" and all(isinstance(a, int) for a in args) and 1 <= len(args) <= 3:
                 r = range(*args)
                 if len(r) > 4096:
                     raise ValueError
                 return tuple(r)
-            if fn in ("tuple", "list") and len(args) == 1 and isinstance(args[0], tuple):
-                return args[0]
+            if fn in ("tuple", "list", "frozenset", "sorted") and len(args) == 1 and isinstance(args[0], tuple):
+                return tuple(sorted(args[0])) if fn == "sorted" else args[0]
+            if fn == "dict" and len(args) == 1 and isinstance(args[0], (dict, tuple)):
+                try:
+                    return dict(args[0])
+                except (TypeError, ValueError):
+                    raise ValueError
             if fn == "chain" and all(isinstance(a, tuple) for a in args):
                 return tuple(x for a in args for x in a)
-            if fn == "len" and len(args) == 1 and isinstance(args[0], (tuple, str)):
+            if fn == "zip" and all(isinstance(a, tuple) for a in args):
+                return tuple(zip(*args))
+            if fn == "enumerate" and len(args) == 1 and isinstance(args[0], tuple):
+                return tuple(enumerate(args[0]))
+            if fn == "len" and len(args) == 1 and isinstance(args[0], (tuple, str, dict)):
                 return len(args[0])
+            if fn == "str" and len(args) == 1 and isinstance(args[0], (int, str)) and not isinstance(args[0], bool):
+                return str(args[0])
+            if fn == "int" and len(args) == 1 and isinstance(args[0], (int, str)):
+                try:
+                    return int(args[0])
+                except ValueError:
+                    raise ValueError
+            if fn in ("items", "keys", "values") and isinstance(node.func, ast.Attribute) and not args:
+                d = ev(node.func.value)
+                if isinstance(d, dict):
+                    return tuple(getattr(d, fn)())
         raise ValueError
 
     def _value_term(self, v):
         if isinstance(v, tuple):
             return ("tuple", tuple(self._value_term(x) for x in v))
+        if isinstance(v, dict):
+            # a table built once at import time and (checked elsewhere) never written
+            return self.alloc(HDict([(self._value_term(k), self._value_term(x)) for k, x in v.items()], ("<module constant>", None, 0)))
         return const(v)
 
     def _resolved(self, r, name):
@@ -614,11 +734,28 @@ class Interp:
             if rx is not None:
                 return rx
             gv = r[1].globals.get(r[2])
-            if isinstance(gv, (ast.Call, ast.BinOp)) and r[2] != "RULE_TYPE":
-                try:
-                    return self._value_term(self._const_global(r[1], gv))
-                except ValueError:
-                    pass
+            if isinstance(gv, (ast.Call, ast.BinOp, ast.DictComp, ast.ListComp, ast.SetComp, ast.GeneratorExp)) and r[2] != "RULE_TYPE":
+                cache = self.__dict__.setdefault("_gconst_cache", {})
+                key = (r[1].name, r[2])
+                if key not in cache:
+                    try:
+                        cache[key] = self._value_term(self._const_global(r[1], gv))
+                    except ValueError:
+                        cache[key] = None
+                if cache[key] is not None:
+                    return cache[key]
+            if isinstance(gv, ast.Call) and isinstance(gv.func, ast.Name) and not gv.keywords:
+                # a module-level record of constants: ``SHAPE = Shape(PREFIX, ":")``
+                rc = self.facts.resolve_name(r[1], gv.func.id)
+                if rc is not None and rc[0] == "class" and rc[1].is_namedtuple and rc[1].find_method("__new__") is None \
+                        and len(gv.args) == len(rc[1].nt_fields()):
+                    try:
+                        vals = tuple(self._value_term(self._const_global(r[1], a)) for a in gv.args)
+                        t = ("tuple", vals)
+                        self.types[t] = rc[1]
+                        return t
+                    except ValueError:
+                        pass
         if r[0] == "class":
             return ("class", r[1].qualname)
         if r[0] == "func":
@@ -1366,6 +1503,16 @@ class Interp:
         if k == "lambda" and len(f) > 3:
             fi, cenv = self.closures[f[3]]
             return self.call_function(st, fi, args, kwargs, n, tree, closure_env=cenv)
+        if k == "ntreplace" and not args:
+            cls = self.facts.cls(f[2])
+            names = cls.nt_fields()
+            vals = list(f[1][1])
+            for nm, v in kwargs.items():
+                if nm in names:
+                    vals[names.index(nm)] = v
+            t = ("tuple", tuple(vals))
+            self.types[t] = cls
+            return t
         if k == "partial":
             kw2 = dict(f[3])
             kw2.update(kwargs)
@@ -1604,16 +1751,61 @@ class Interp:
     def instantiate(self, st, cls: ClassInfo, args, kwargs, n, tree):
         if cls.is_typeddict or any(c.is_typeddict for c in cls.mro()):
             return self.new_dict([(const(k), v) for k, v in kwargs.items()], n, tree)
+        if cls.is_namedtuple and cls.find_method("__new__") is None:
+            # an immutable record: a tuple value whose positions have names
+            names = cls.nt_fields()
+            vals = list(args[:len(names)])
+            for nm in names[len(vals):]:
+                if nm in kwargs:
+                    vals.append(kwargs[nm])
+                else:
+                    ca = cls.find_class_attr(nm)
+                    dv = self._eval_class_attr(ca[0], nm, ca[1]) if ca is not None else None
+                    vals.append(dv if dv is not None else ("opaque", f"default of {cls.name}.{nm}"))
+            t = ("tuple", tuple(vals))
+            self.types[t] = cls
+            return t
         ref = self.alloc(HInst(cls, self.origin(n)))
         init = cls.find_method("__init__")
         if init is not None:
             self.call_function(st, init, [ref] + args, kwargs, n, tree)
         elif cls.is_dataclass:
             names = [k for c in reversed(cls.mro()) for k in c.annotations]
-            for nm, v in zip(names, args):
-                st.ext[(ref, nm)] = v
-            for nm, v in kwargs.items():
-                st.ext[(ref, nm)] = v
+            given = dict(zip(names, args))
+            given.update(kwargs)
+            for nm in names:
+                if nm in given:
+                    st.ext[(ref, nm)] = given[nm]
+                    continue
+                # a declared default: a constant, or ``field(default=..., default_factory=...)`` (the factory runs per instance)
+                ca = cls.find_class_attr(nm)
+                if ca is None:
+                    continue
+                dv = ca[1]
+                if isinstance(dv, ast.Call) and getattr(dv.func, "id", getattr(dv.func, "attr", "")) == "field":
+                    kw = {k.arg: k.value for k in dv.keywords}
+                    if "default_factory" in kw:
+                        fe = kw["default_factory"]
+                        dummy = FuncInfo(ca[0].module, None, ast.parse("def _class_body(): pass").body[0])
+                        self.stack.append(Activation(dummy, len(self.stack)))
+                        try:
+                            call = ast.Call(func=fe, args=[], keywords=[])
+                            ast.copy_location(call, dv)
+                            ast.fix_missing_locations(call)
+                            st.ext[(ref, nm)] = self.ev(State(ext=st.ext), call, tree)
+                        finally:
+                            self.stack.pop()
+                    elif "default" in kw:
+                        v0 = self._eval_class_attr(ca[0], nm + "#default", kw["default"])
+                        if v0 is not None:
+                            st.ext[(ref, nm)] = v0
+                else:
+                    v0 = self._eval_class_attr(ca[0], nm, dv)
+                    if v0 is not None:
+                        st.ext[(ref, nm)] = v0
+            post = cls.find_method("__post_init__")
+            if post is not None:
+                self.call_function(st, post, [ref], {}, n, tree)
         return ref
 
     def run_generator(self, g: HGen, st: State, tree: list, hook, node=None, carry=None):
@@ -1783,6 +1975,13 @@ class Interp:
         for i, p in enumerate(params):
             if i < len(pos) and not (isinstance(pos[i], tuple) and pos[i][0] == "star"):
                 callee.env[p.arg] = pos[i]
+                if p.annotation is not None and isinstance(pos[i], tuple) and pos[i] and pos[i][0] in ("elem", "item", "attr", "firstof") \
+                        and self.type_of(pos[i]) is None:
+                    # the declared parameter type tells what an otherwise untyped argument is (an element of a list,
+                    # a looked-up item): its methods resolve as for a value of that class
+                    ci = self.facts.annotation_class(fi.module, p.annotation)
+                    if ci is not None and not ci.is_typeddict:
+                        self.types[pos[i]] = ci
             elif p.arg in kwargs:
                 callee.env[p.arg] = kwargs[p.arg]
             elif defaults[i] is not None:
@@ -2917,7 +3116,18 @@ class Interp:
             if i == 0 and fi.cls is not None and fi.is_classmethod:
                 st.env[p.arg] = ("class", fi.cls.qualname)
             elif i == 0 and fi.cls is not None and not fi.is_static:
-                self.types[t] = fi.cls
+                # self is an instance of the class the method was asked for (an inherited method analysed on a subclass
+                # dispatches to the subclass's overrides)
+                named = None
+                try:
+                    named = self.facts.cls(qualname.rpartition(".")[0])
+                except Exception:
+                    named = None
+                pre = self.types.get(t)
+                if pre is not None and fi.cls in pre.mro():
+                    pass            # the caller said which subclass the receiver is
+                else:
+                    self.types[t] = named if (named is not None and fi.cls in named.mro()) else fi.cls
             else:
                 c = self.facts.annotation_class(fi.module, p.annotation)
                 if c is not None:
